@@ -1127,6 +1127,7 @@ PROPS = {
             "C18_std_native_shadowed_by_collision": [],
             "C18_registration_replaces": [],
             "C18_menu_registry_is_find_native": [],
+            "C18_reentry_balanced_straightline": [],
         },
         n_quick=200, n_thorough=2000,
         gates=["feature.native", "feature.native_arity4", "feature.native_value_call", "feature.reentry",
@@ -1174,8 +1175,10 @@ PROPS = {
             "re-entrant natives: proved what call1 / try1 / rb1 / call0 hand to run_function and what run_function "
             "hands to the nested _run (entry point, stack, two frames with the offset below the arguments); "
             "reentry_balanced is proved from the point where the callee reaches its Return with the caller's stack "
-            "part and frames intact (C18_reentry_balanced_partial); that compiled callee bodies keep them intact "
-            "(frame discipline) is claimed by the rb1 oracle only",
+            "part and frames intact (C18_reentry_balanced_partial), and outright for callees whose body is "
+            "straight-line ScalarNil / CopyLast / Pop code that stays above its frame base "
+            "(C18_reentry_balanced_straightline); that ALL compiled callee bodies keep them intact (frame discipline) "
+            "is claimed by the rb1 oracle only",
             "registration: VmRegistry.v models the table of callables as handle -> (name, function) with overwrite on "
             "an equal handle; HandleTable's own behaviour is C07's; the allocation failure of HandleTable::grow "
             "during a registration is not modelled. The library's natives are protected by NAME only: a name with the "
